@@ -57,7 +57,7 @@ def showRun (o : Outcome Obs) : String :=
   | .panic s => "model-panic " ++ s
 
 def runCase (defsS stdinS extS yamlS inlineS overS libS : String) : Result :=
-  let env : Env := ⟨genTables, parseExt extS⟩
+  let env : Env := ⟨drvTables, parseExt extS⟩
   match defsOf defsS, unhexTok stdinS with
   | some cols, some stdin =>
     let viaYaml := ofYaml env 16 cols
